@@ -100,7 +100,7 @@ class ECP5PLL(LiteXModule):
                                     break
                             if not valid:
                                 all_valid = False
-                        if self.nclkouts == self.nclkouts_max and not config["clkfb"]:
+                        if self.nclkouts == self.nclkouts_max and config["clkfb"] is None:
                             # If there is no output suitable for feedback and no spare, not valid
                             all_valid = False
                     else:
